@@ -457,8 +457,11 @@ class Workflow(Composite):
         old_outputs = self.outputs
         connection_changes = []  # For reversion if there's an error
         try:
-            self._inputs = self._build_inputs()
-            self._outputs = self._build_outputs()
+            # Workflow IO is only ever a fresh view of the children's channels (see the
+            # `inputs`/`outputs` properties); don't keep a copy of it on the instance:
+            # it would go stale with the next edit and, being pickled ahead of the
+            # children, make the unpickler set up a child inside the state of the first
+            # of its channels the view lists -- whose value link is then lost
             for old, new in [(old_inputs, self.inputs), (old_outputs, self.outputs)]:
                 for key, old_channel in old.items():
                     if old_channel.connected:
@@ -483,8 +486,6 @@ class Workflow(Composite):
             for new_channel, old_channel, swapped_conenctions in connection_changes:
                 new_channel.disconnect(*swapped_conenctions)
                 old_channel.connect(*swapped_conenctions)
-            self._inputs = old_inputs
-            self._outputs = old_outputs
             e.message = (
                 f"Unable to rebuild IO for {self.full_label}; reverting to old IO."
                 f"{getattr(e, 'message', '')}"
